@@ -17,76 +17,177 @@ class Vocab:
         self.ints = ints
 
 
+# Abstract terms (tuples) are generated first; `build` turns them into cspuz expressions through the
+# PUBLIC API, `meaning` evaluates them independently (the intended mathematical meaning).  The oracle
+# therefore also covers the constructors (operator overloads, then/cond, count_true, fold_*, alldifferent).
+CMPS = ["eq", "ne", "le", "lt", "ge", "gt"]
+
+
 def gen_int(rnd, d, V, lits=True):
-    from cspuz import count_true, cond
     c = rnd.random()
     if d <= 0 or c < 0.25:
         if not lits or rnd.random() < 0.7:
-            return rnd.choice(V.ints)
-        return rnd.randint(-3, 3)
+            return ("ivar", rnd.randrange(len(V.ints)))
+        return ("ilit", rnd.randint(-3, 3))
     k = rnd.randrange(8)
     if k == 0:
-        e = gen_int(rnd, d - 1, V, lits=False)
-        return -e
+        return ("neg", gen_int(rnd, d - 1, V, lits=False))
     if k in (1, 2):
         a, b = gen_int(rnd, d - 1, V), gen_int(rnd, d - 1, V)
-        if isinstance(a, int) and isinstance(b, int):
+        if a[0] == "ilit" and b[0] == "ilit":
             a = gen_int(rnd, d - 1, V, lits=False)
-        return a + b if k == 1 else a - b
+        return ("add" if k == 1 else "sub", a, b)
     if k == 3:
-        c_ = gen_bool(rnd, d - 1, V, lits=False)
-        return c_.cond(gen_int(rnd, d - 1, V), gen_int(rnd, d - 1, V))
+        return ("cond_m", gen_bool(rnd, d - 1, V, lits=False), gen_int(rnd, d - 1, V), gen_int(rnd, d - 1, V))
     if k == 4:
-        n = rnd.randrange(0, 4)
-        return count_true([gen_bool(rnd, d - 1, V) for _ in range(n)])
+        return ("count_true", [gen_bool(rnd, d - 1, V) for _ in range(rnd.randrange(0, 4))], "flat")
     if k == 5:
-        return cond(gen_bool(rnd, d - 1, V, lits=False), gen_int(rnd, d - 1, V), gen_int(rnd, d - 1, V))
+        return ("cond_f", gen_bool(rnd, d - 1, V, lits=False), gen_int(rnd, d - 1, V), gen_int(rnd, d - 1, V))
     if k == 6:
-        # nested iterables for count_true
-        return count_true([gen_bool(rnd, d - 1, V)], (gen_bool(rnd, d - 1, V),), [[gen_bool(rnd, d - 1, V)]])
-    return gen_bool(rnd, d - 1, V, lits=False).count_true()
+        return ("count_true", [gen_bool(rnd, d - 1, V) for _ in range(3)], "nested")
+    return ("bcount", gen_bool(rnd, d - 1, V, lits=False))
 
 
 def gen_bool(rnd, d, V, lits=True):
-    from cspuz import fold_or, fold_and, alldifferent
-    from cspuz.constraints import then
     c = rnd.random()
     if d <= 0 or c < 0.2:
         if not lits or rnd.random() < 0.75:
-            return rnd.choice(V.bools)
-        return rnd.random() < 0.5
+            return ("bvar", rnd.randrange(len(V.bools)))
+        return ("blit", rnd.random() < 0.5)
     k = rnd.randrange(14)
     if k < 6:
         a, b = gen_int(rnd, d - 1, V), gen_int(rnd, d - 1, V)
-        if isinstance(a, int) and isinstance(b, int):
+        if a[0] == "ilit" and b[0] == "ilit":
             a = gen_int(rnd, d - 1, V, lits=False)
-        return [a == b, a != b, a <= b, a < b, a >= b, a > b][k]
+        return ("cmp", CMPS[k], a, b)
     if k == 6:
-        return ~gen_bool(rnd, d - 1, V, lits=False)
+        return ("not", gen_bool(rnd, d - 1, V, lits=False))
     if k in (7, 8, 9, 10, 11):
         a, b = gen_bool(rnd, d - 1, V), gen_bool(rnd, d - 1, V)
-        if isinstance(a, bool) and isinstance(b, bool):
+        if a[0] == "blit" and b[0] == "blit":
             a = gen_bool(rnd, d - 1, V, lits=False)
-        if k == 7:
-            return a & b
-        if k == 8:
-            return a | b
-        if k == 9:
-            return a == b if not isinstance(a, bool) else b == a
-        if k == 10:
-            return a != b if not isinstance(a, bool) else b != a
-        return a ^ b
+        return (["and", "or", "iff", "bne", "xor"][k - 7], a, b)
     if k == 12:
-        a = gen_bool(rnd, d - 1, V, lits=False)
-        b = gen_bool(rnd, d - 1, V)
-        return a.then(b) if rnd.random() < 0.5 else then(a, b)
+        return ("then_m" if rnd.random() < 0.5 else "then_f", gen_bool(rnd, d - 1, V, lits=False), gen_bool(rnd, d - 1, V))
     n = rnd.randrange(0, 4)
     which = rnd.randrange(3)
     if which == 0:
-        return fold_or([gen_bool(rnd, d - 1, V) for _ in range(n)])
+        return ("fold_or", [gen_bool(rnd, d - 1, V) for _ in range(n)])
     if which == 1:
-        return fold_and([gen_bool(rnd, d - 1, V) for _ in range(n)])
-    return alldifferent([gen_int(rnd, d - 1, V) for _ in range(n)])
+        return ("fold_and", [gen_bool(rnd, d - 1, V) for _ in range(n)])
+    return ("alldiff", [gen_int(rnd, d - 1, V) for _ in range(n)])
+
+
+def build(t, V):
+    """abstract term -> cspuz expression (or Python literal) through the public API"""
+    import operator as op
+    from cspuz import count_true, fold_or, fold_and, alldifferent, cond
+    from cspuz.constraints import then
+    k = t[0]
+    B = lambda x: build(x, V)
+    if k == "bvar":
+        return V.bools[t[1]]
+    if k == "ivar":
+        return V.ints[t[1]]
+    if k in ("blit", "ilit"):
+        return t[1]
+    if k == "neg":
+        return -B(t[1])
+    if k == "add":
+        return B(t[1]) + B(t[2])
+    if k == "sub":
+        return B(t[1]) - B(t[2])
+    if k == "cmp":
+        return {"eq": op.eq, "ne": op.ne, "le": op.le, "lt": op.lt, "ge": op.ge, "gt": op.gt}[t[1]](B(t[2]), B(t[3]))
+    if k == "not":
+        return ~B(t[1])
+    if k == "and":
+        return B(t[1]) & B(t[2])
+    if k == "or":
+        return B(t[1]) | B(t[2])
+    if k == "xor":
+        return B(t[1]) ^ B(t[2])
+    if k in ("iff", "bne"):
+        a, b = B(t[1]), B(t[2])
+        if isinstance(a, bool):      # a Python bool on the left: Python dispatches to the reflected method
+            a, b = b, a
+        return (a == b) if k == "iff" else (a != b)
+    if k == "then_m":
+        return B(t[1]).then(B(t[2]))
+    if k == "then_f":
+        return then(B(t[1]), B(t[2]))
+    if k == "cond_m":
+        return B(t[1]).cond(B(t[2]), B(t[3]))
+    if k == "cond_f":
+        return cond(B(t[1]), B(t[2]), B(t[3]))
+    if k == "bcount":
+        return B(t[1]).count_true()
+    if k == "count_true":
+        items = [B(x) for x in t[1]]
+        if t[2] == "nested" and len(items) == 3:
+            return count_true([items[0]], (items[1],), [[items[2]]])
+        return count_true(items)
+    if k == "fold_or":
+        return fold_or([B(x) for x in t[1]])
+    if k == "fold_and":
+        return fold_and([B(x) for x in t[1]])
+    if k == "alldiff":
+        return alldifferent([B(x) for x in t[1]])
+    raise ValueError(k)
+
+
+def meaning(t, V, asg):
+    """the intended value of an abstract term under {variable id: value}"""
+    k = t[0]
+    M = lambda x: meaning(x, V, asg)
+    if k == "bvar":
+        return asg[V.bools[t[1]].id]
+    if k == "ivar":
+        return asg[V.ints[t[1]].id]
+    if k in ("blit", "ilit"):
+        return t[1]
+    if k == "neg":
+        return -M(t[1])
+    if k == "add":
+        return M(t[1]) + M(t[2])
+    if k == "sub":
+        return M(t[1]) - M(t[2])
+    if k == "cmp":
+        a, b = M(t[2]), M(t[3])
+        return {"eq": a == b, "ne": a != b, "le": a <= b, "lt": a < b, "ge": a >= b, "gt": a > b}[t[1]]
+    if k == "not":
+        return not M(t[1])
+    if k == "and":
+        return M(t[1]) and M(t[2])
+    if k == "or":
+        return M(t[1]) or M(t[2])
+    if k in ("xor", "bne"):
+        return M(t[1]) != M(t[2])
+    if k == "iff":
+        return M(t[1]) == M(t[2])
+    if k in ("then_m", "then_f"):
+        return (not M(t[1])) or M(t[2])
+    if k in ("cond_m", "cond_f"):
+        return M(t[2]) if M(t[1]) else M(t[3])
+    if k == "bcount":
+        return 1 if M(t[1]) else 0
+    if k == "count_true":
+        return sum(1 for x in t[1] if M(x))
+    if k == "fold_or":
+        return any(M(x) for x in t[1])
+    if k == "fold_and":
+        return all(M(x) for x in t[1])
+    if k == "alldiff":
+        vs = [M(x) for x in t[1]]
+        return len(set(vs)) == len(vs)
+    raise ValueError(k)
+
+
+def intended_solutions(solver, V, terms, cap=200000):
+    gen = den.all_assignments(solver.variables, cap)
+    if gen is None:
+        return None
+    return [a for a in gen if all(meaning(t, V, a) is True for t in terms)]
 
 
 DOMAINS = [(0, 1), (-2, 1), (3, 3), (0, 3), (-1, 0), (-3, -3)]
@@ -116,85 +217,85 @@ def describe(solver):
 
 
 def one_operator_matrix():
-    """complete matrix: every operator form x operand kinds (variable / literal) x arity 0..3"""
-    load_repo()
-    from cspuz import Solver, count_true, fold_or, fold_and, alldifferent, cond
-    from cspuz.constraints import then
+    """complete matrix: every operator form x operand kinds (variable / literal) x arity 0..3,
+    as abstract terms (label, list of constraint terms)"""
     out = []
-
-    def prog(build, label):
-        s = Solver()
-        b = [s.bool_var() for _ in range(3)]
-        i = [s.int_var(-1, 2), s.int_var(0, 2), s.int_var(1, 1)]
-        r = build(s, b, i)
-        for c in (r if isinstance(r, list) else [r]):
-            s.ensure(c)
-        out.append((label, s))
-
-    ik = [("var", lambda i: i[0]), ("lit", lambda i: 1), ("var2", lambda i: i[1])]
-    bk = [("var", lambda b: b[0]), ("lit", lambda b: True), ("lit0", lambda b: False), ("var2", lambda b: b[1])]
-    import operator as op
-    for name, f in [("eq", op.eq), ("ne", op.ne), ("le", op.le), ("lt", op.lt), ("ge", op.ge), ("gt", op.gt)]:
-        for (ka, fa) in ik:
-            for (kb, fb) in ik:
+    bv = lambda k: ("bvar", k)
+    iv = lambda k: ("ivar", k)
+    ik = [("var", iv(0)), ("lit", ("ilit", 1)), ("var2", iv(1))]
+    bk = [("var", bv(0)), ("lit", ("blit", True)), ("lit0", ("blit", False)), ("var2", bv(1))]
+    for name in CMPS:
+        for (ka, a) in ik:
+            for (kb, b) in ik:
                 if ka == "lit" and kb == "lit":
                     continue
-                prog(lambda s, b, i, f=f, fa=fa, fb=fb: f(fa(i), fb(i)), "%s(%s,%s)" % (name, ka, kb))
-    for name, f in [("add", op.add), ("sub", op.sub)]:
-        for (ka, fa) in ik:
-            for (kb, fb) in ik:
+                out.append(("%s(%s,%s)" % (name, ka, kb), [("cmp", name, a, b)]))
+    for name in ("add", "sub"):
+        for (ka, a) in ik:
+            for (kb, b) in ik:
                 if ka == "lit" and kb == "lit":
                     continue
                 for t in (-1, 0, 2, 3):
-                    prog(lambda s, b, i, f=f, fa=fa, fb=fb, t=t: f(fa(i), fb(i)) == t, "%s(%s,%s)==%d" % (name, ka, kb, t))
+                    out.append(("%s(%s,%s)==%d" % (name, ka, kb, t), [("cmp", "eq", (name, a, b), ("ilit", t))]))
     for t in (-2, 1):
-        prog(lambda s, b, i, t=t: -i[0] == t, "neg==%d" % t)
-        prog(lambda s, b, i, t=t: (i[0] - i[1] - i[2]) == t, "sub3==%d" % t)
-        prog(lambda s, b, i, t=t: (2 - i[0]) == t, "rsub==%d" % t)
-        prog(lambda s, b, i, t=t: (i[0] + i[1] + 1 + i[2]) == t + 3, "add4==%d" % t)
-    for name, f in [("and", op.and_), ("or", op.or_), ("xor", op.xor), ("iff", lambda a, b: a == b), ("bxor", lambda a, b: a != b)]:
-        for (ka, fa) in bk:
-            for (kb, fb) in bk:
+        out.append(("neg==%d" % t, [("cmp", "eq", ("neg", iv(0)), ("ilit", t))]))
+        out.append(("sub3==%d" % t, [("cmp", "eq", ("sub", ("sub", iv(0), iv(1)), iv(2)), ("ilit", t))]))
+        out.append(("rsub==%d" % t, [("cmp", "eq", ("sub", ("ilit", 2), iv(0)), ("ilit", t))]))
+        out.append(("add4==%d" % t, [("cmp", "eq", ("add", ("add", ("add", iv(0), iv(1)), ("ilit", 1)), iv(2)), ("ilit", t + 3))]))
+        out.append(("lit-first==%d" % t, [("cmp", "eq", ("ilit", t), ("add", ("ilit", 1), iv(0)))]))
+    for name in ("and", "or", "xor", "iff", "bne"):
+        for (ka, a) in bk:
+            for (kb, b) in bk:
                 if ka.startswith("lit") and kb.startswith("lit"):
                     continue
-                if ka.startswith("lit") and name in ("iff", "bxor"):
-                    prog(lambda s, b, i, f=f, fa=fa, fb=fb: f(fb(b), fa(b)), "%s(%s,%s)" % (name, kb, ka))
-                else:
-                    prog(lambda s, b, i, f=f, fa=fa, fb=fb: f(fa(b), fb(b)), "%s(%s,%s)" % (name, ka, kb))
-                prog(lambda s, b, i, f=f, fa=fa, fb=fb: ~(f(fb(b), fa(b)) if ka.startswith("lit") and name in ("iff", "bxor") else f(fa(b), fb(b))), "not %s(%s,%s)" % (name, ka, kb))
-    for (kb_, fb) in bk:
-        prog(lambda s, b, i, fb=fb: b[2].then(fb(b)), "then(var,%s)" % kb_)
-        prog(lambda s, b, i, fb=fb: then(b[2], fb(b)), "then_fn(var,%s)" % kb_)
-        prog(lambda s, b, i, fb=fb: ~b[2].then(fb(b)), "not then(var,%s)" % kb_)
-    for (ka, fa) in ik:
-        for (kb2, fb2) in ik:
+                out.append(("%s(%s,%s)" % (name, ka, kb), [(name, a, b)]))
+                out.append(("not %s(%s,%s)" % (name, ka, kb), [("not", (name, a, b))]))
+    for (kb_, b) in bk:
+        for form in ("then_m", "then_f"):
+            out.append(("%s(var,%s)" % (form, kb_), [(form, bv(2), b)]))
+            out.append(("not %s(var,%s)" % (form, kb_), [("not", (form, bv(2), b))]))
+    for (ka, a) in ik:
+        for (kb2, b2) in ik:
             for t in (0, 1, 2):
-                prog(lambda s, b, i, fa=fa, fb2=fb2, t=t: b[0].cond(fa(i), fb2(i)) == t, "cond(%s,%s)==%d" % (ka, kb2, t))
-                prog(lambda s, b, i, fa=fa, fb2=fb2, t=t: cond(b[0], fa(i), fb2(i)) == t, "cond_fn(%s,%s)==%d" % (ka, kb2, t))
-    items_b = [lambda b: b[0], lambda b: b[1], lambda b: True, lambda b: False, lambda b: ~b[2]]
+                for form in ("cond_m", "cond_f"):
+                    out.append(("%s(%s,%s)==%d" % (form, ka, kb2, t), [("cmp", "eq", (form, bv(0), a, b2), ("ilit", t))]))
+    items_b = [bv(0), bv(1), ("blit", True), ("blit", False), ("not", bv(2))]
     for n in range(0, 4):
         for combo in itertools.product(range(len(items_b)), repeat=n):
             if n == 3 and len(set(combo)) < 2:
                 continue
-            mk = lambda b, combo=combo: [items_b[k](b) for k in combo]
-            prog(lambda s, b, i, mk=mk: fold_or(mk(b)), "fold_or%s" % (combo,))
-            prog(lambda s, b, i, mk=mk: fold_and(mk(b)), "fold_and%s" % (combo,))
-            prog(lambda s, b, i, mk=mk: ~fold_or(mk(b)), "not fold_or%s" % (combo,))
-            prog(lambda s, b, i, mk=mk: ~fold_and(mk(b)), "not fold_and%s" % (combo,))
+            items = [items_b[k] for k in combo]
+            out.append(("fold_or%s" % (combo,), [("fold_or", items)]))
+            out.append(("fold_and%s" % (combo,), [("fold_and", items)]))
+            out.append(("not fold_or%s" % (combo,), [("not", ("fold_or", items))]))
+            out.append(("not fold_and%s" % (combo,), [("not", ("fold_and", items))]))
             for t in range(0, n + 1):
-                prog(lambda s, b, i, mk=mk, t=t: count_true(mk(b)) == t, "count_true%s==%d" % (combo, t))
-            prog(lambda s, b, i, mk=mk, n=n: i[0] == count_true(mk(b)), "var==count_true%s" % (combo,))
-    items_i = [lambda i: i[0], lambda i: i[1], lambda i: 1, lambda i: 2, lambda i: i[2]]
+                out.append(("count_true%s==%d" % (combo, t), [("cmp", "eq", ("count_true", items, "flat"), ("ilit", t))]))
+            out.append(("var==count_true%s" % (combo,), [("cmp", "eq", iv(0), ("count_true", items, "nested" if n == 3 else "flat"))]))
+    items_i = [iv(0), iv(1), ("ilit", 1), ("ilit", 2), iv(2)]
     for n in range(0, 4):
         for combo in itertools.product(range(len(items_i)), repeat=n):
-            mk = lambda i, combo=combo: [items_i[k](i) for k in combo]
-            prog(lambda s, b, i, mk=mk: alldifferent(mk(i)), "alldifferent%s" % (combo,))
-            prog(lambda s, b, i, mk=mk: ~alldifferent(mk(i)), "not alldifferent%s" % (combo,))
-    # literals posted directly
-    prog(lambda s, b, i: [True, b[0]], "ensure(True)")
-    prog(lambda s, b, i: [False], "ensure(False)")
-    prog(lambda s, b, i: [], "no constraint")
+            items = [items_i[k] for k in combo]
+            out.append(("alldifferent%s" % (combo,), [("alldiff", items)]))
+            out.append(("not alldifferent%s" % (combo,), [("not", ("alldiff", items))]))
+    out.append(("ensure(True)", [("blit", True), bv(0)]))
+    out.append(("ensure(False)", [("blit", False)]))
+    out.append(("no constraint", []))
+    out.append(("bcount", [("cmp", "eq", ("bcount", bv(1)), ("ilit", 1))]))
     return out
+
+
+def build_matrix_program(terms):
+    load_repo()
+    from cspuz import Solver
+    s = Solver()
+    b = [s.bool_var() for _ in range(3)]
+    i = [s.int_var(-1, 2), s.int_var(0, 2), s.int_var(1, 1)]
+    V = Vocab(s, b, i)
+    s.verif_terms, s.verif_vocab = list(terms), V
+    for t in terms:
+        s.ensure(build(t, V))
+    return s
 
 
 class Timeout(Exception):
@@ -227,6 +328,12 @@ def check_find_answer(solver, backend=None):
     sols = den.brute_solutions(solver.variables, solver.constraints)
     if sols is None:
         return None
+    if getattr(solver, "verif_terms", None) is not None:
+        # independent oracle: the intended meaning of the program as written through the API
+        intended = intended_solutions(solver, solver.verif_vocab, solver.verif_terms)
+        if intended is not None and intended != sols:
+            only = [a for a in intended if a not in sols][:1] or [a for a in sols if a not in intended][:1]
+            return dict(kind="constructed-tree-differs-from-program", detail="the expression trees built through the API do not mean what the program says: e.g. assignment %s (%d intended solutions, %d solutions of the built trees)" % (only, len(intended), len(sols)))
     for v in solver.variables:
         v.sol = None
     try:
@@ -330,8 +437,11 @@ def classify_program(solver):
 def build_random(seed, depth=3):
     rnd = random.Random(seed)
     s, V = new_program(rnd)
+    s.verif_terms, s.verif_vocab = [], V
     for _ in range(rnd.randrange(1, 4)):
-        s.ensure(gen_bool(rnd, rnd.randrange(1, depth + 1), V))
+        t = gen_bool(rnd, rnd.randrange(1, depth + 1), V)
+        s.verif_terms.append(t)
+        s.ensure(build(t, V))
     return s
 
 
@@ -342,7 +452,8 @@ def _w_c01(args):
         load_repo()
         if kind == "matrix":
             progs = one_operator_matrix()[lo:hi]
-            for label, s in progs:
+            for label, terms in progs:
+                s = build_matrix_program(terms)
                 out["n"] += 1
                 f = check_find_answer(s)
                 if f:
@@ -362,13 +473,16 @@ def _w_c01(args):
             for k in range(lo, hi):
                 rnd = random.Random(seed * 7919 + k)
                 s, V = new_program(rnd)
+                s.verif_terms, s.verif_vocab = [], V
                 for step in range(rnd.randrange(2, 6)):
                     a = rnd.random()
                     if a < 0.3:
                         V.bools.append(s.bool_var())
                     elif a < 0.5:
                         V.ints.append(s.int_var(*rnd.choice(DOMAINS)))
-                    s.ensure(gen_bool(rnd, 2, V))
+                    t = gen_bool(rnd, 2, V)
+                    s.verif_terms.append(t)
+                    s.ensure(build(t, V))
                     out["n"] += 1
                     f = check_find_answer(s)
                     if f:
@@ -416,19 +530,23 @@ def replay_c01(payload):
     load_repo()
     how = payload["how"]
     if how["kind"] == "matrix":
-        s = dict(one_operator_matrix())[how["label"]]
+        s = build_matrix_program(dict(one_operator_matrix())[how["label"]])
     elif how["kind"] == "random":
         s = build_random(how["seed"])
     else:
         rnd = random.Random(how["seed"])
         s, V = new_program(rnd)
+        s.verif_terms, s.verif_vocab = [], V
+        nsteps = rnd.randrange(2, 6)
         for step in range(how["step"] + 1):
             a = rnd.random()
             if a < 0.3:
                 V.bools.append(s.bool_var())
             elif a < 0.5:
                 V.ints.append(s.int_var(*rnd.choice(DOMAINS)))
-            s.ensure(gen_bool(rnd, 2, V))
+            t = gen_bool(rnd, 2, V)
+            s.verif_terms.append(t)
+            s.ensure(build(t, V))
         # note: the session's number of steps was drawn before the loop
     f = check_find_answer(s)
     print("replay:", json.dumps(describe(s))[:500], "->", f or "agrees with brute force")
